@@ -78,7 +78,7 @@ func (g *Geometry) MarshalJSON() ([]byte, error) {
 // document to be marshalled.
 func (g *Geometry) MarshalBSON() ([]byte, error) {
 	ng := newGeometryMarshallDoc(g)
-	return bson.Marshal(ng)
+	return bson.Marshal(ng.bsonDoc())
 }
 
 // MarshalBSONValue will marshal the geometry into a BSON value
@@ -92,7 +92,7 @@ func (g *Geometry) MarshalBSONValue() (bsontype.Type, []byte, error) {
 	}
 
 	ng := newGeometryMarshallDoc(g)
-	return bson.MarshalValue(ng)
+	return bson.MarshalValue(ng.bsonDoc())
 }
 
 func newGeometryMarshallDoc(g *Geometry) *geometryMarshallDoc {
@@ -589,4 +589,19 @@ type geometryMarshallDoc struct {
 	Type        string       `json:"type" bson:"type"`
 	Coordinates orb.Geometry `json:"coordinates,omitempty" bson:"coordinates,omitempty"`
 	Geometries  []*Geometry  `json:"geometries,omitempty" bson:"geometries,omitempty"`
+}
+
+// bsonDoc returns the value to hand to the bson encoder. The bson omitempty
+// option also drops an empty slice held in an interface, which would leave a
+// typed geometry without the coordinates the decoder requires, so a geometry
+// with coordinates is written with a document that always includes them.
+func (d *geometryMarshallDoc) bsonDoc() interface{} {
+	if d.Coordinates == nil {
+		return d
+	}
+
+	return &struct {
+		Type        string       `bson:"type"`
+		Coordinates orb.Geometry `bson:"coordinates"`
+	}{d.Type, d.Coordinates}
 }
